@@ -1,4 +1,6 @@
 //! Suite registry: one module per correspondence suite; `lookup` maps a suite name to its runner.
+pub mod cfgsim;
+pub mod config;
 pub mod curve;
 pub mod panic;
 
@@ -6,6 +8,8 @@ pub fn lookup(name: &str) -> Option<fn(&str) -> String> {
     Some(match name {
         "panic" => panic::run,
         "curve" => curve::run,
+        "config" => config::run,
+        "cfgsim" => cfgsim::run,
         _ => return None,
     })
 }
